@@ -12,6 +12,7 @@
 (***************************************************************************)
 EXTENDS Naturals, TLC
 CONSTANT RemoteNameCap    \* TRUE: of a name in a string table in the target's memory at most a fixed number of bytes is fetched; FALSE: the rest of the table, as from a file
+CONSTANT NoteAlignPerSegment   \* TRUE: each PT_NOTE segment is scanned with its own p_align; FALSE: with the first note segment's
 CONSTANT TranslateVaddr   \* TRUE: in a file, DT_STRTAB (a virtual address) is translated through the PT_LOAD segment containing it;
                           \* FALSE: it is used as a file offset as it stands
 ElfAll == [bits64 : BOOLEAN,
@@ -19,7 +20,8 @@ ElfAll == [bits64 : BOOLEAN,
         solen  : {"short", "long"},                    \* DT_SONAME string: a usual name, or one longer than any fixed bound a reader might think of (string tables have none)
         layout : {"identity", "shift_outside", "shift_inside"},   \* virtual address = file offset (+ a shift that puts DT_STRTAB, read as an offset, outside / inside the file)
         phdrs  : {"ok", "absent", "pastend"},
-        phNote : {"ok", "absent", "range_bad", "other_note"},
+        phNote : {"ok", "absent", "range_bad", "other_note", "late_second"},    \* late_second: an 8-aligned note segment without the id, then a 4-aligned one
+                                                                                \* where the id follows a note whose padded size is 4 mod 8
         shdrs  : {"ok", "absent", "pastend"},
         strtab : {"ok", "bad_index", "wrong_type"},
         secNote: {"ok", "absent", "range_bad"},
@@ -31,10 +33,11 @@ ElfAll == [bits64 : BOOLEAN,
 InImage(e) == e.phdrs # "pastend" /\ e.shdrs # "pastend" /\ e.phNote # "range_bad" /\ e.secNote # "range_bad" /\ e.text # "range_bad" /\ e.soname # "offset_bad"
 (* ... and a range that leaves the image means, in memory, whatever happens to be mapped behind the module (a partly readable range
    yields part of the data): memory and file are compared on images whose tables lie inside them, as the property does *)
-Elf == {e \in ElfAll : (e.src = "memory" => e.layout = "identity" /\ InImage(e)) /\ (e.solen = "long" => e.soname = "ok")}
+Elf == {e \in ElfAll : /\ (e.src = "memory" => e.layout = "identity" /\ InImage(e)) /\ (e.solen = "long" => e.soname = "ok")
+                        /\ (e.phNote = "late_second" => e.dyn = "absent")}        \* (the generated image has three program headers: the second note segment takes the dynamic one's)
 NameFits(e) == ~(RemoteNameCap /\ e.src = "memory" /\ e.solen = "long")      \* otherwise no NUL within what was fetched: an error value
 (* ---- strategies as steps ---- *)
-PhNoteId(e)  == e.phdrs = "ok" /\ e.phNote = "ok"
+PhNoteId(e)  == e.phdrs = "ok" /\ (e.phNote = "ok" \/ (e.phNote = "late_second" /\ NoteAlignPerSegment))
 SectionId(e) == e.shdrs = "ok" /\ e.strtab = "ok" /\ e.secNote = "ok"
 TextId(e)    == e.shdrs = "ok" /\ e.text = "ok"
 BuildIdOutcome(e) == IF PhNoteId(e) THEN "ph" ELSE IF SectionId(e) THEN "section" ELSE IF TextId(e) THEN "text" ELSE "err"
